@@ -1,29 +1,46 @@
 #!/usr/bin/env python3
-"""tools/seedtest.py <patch.diff> <Cnn> [<Cnn> ...] : apply a seeded change to /repo, run the quick checks,
-report which of them raised a VIOLATION, and restore /repo (git checkout -- .). Never commits to /repo."""
+"""tools/seedtest.py <patch.diff> <Cnn> [<Cnn> ...]
+
+Runs the quick checks against a seeded change WITHOUT touching /repo (other work may be using it): the change is
+applied in a scratch worktree of /repo (/root/scratch/seedrepo) and the checks run from a scratch copy of /verif
+(/root/scratch/seedverif) whose harness links that worktree (VERIF_REPO). Reports which checks raised a VIOLATION.
+(The registered checks themselves always use /repo; this isolation is only for the detection experiments.)"""
 import subprocess, sys, os, json
 ROOT = os.path.dirname(os.path.dirname(os.path.abspath(__file__)))
-patch, props = sys.argv[1], sys.argv[2:]
+REPO2, VERIF2 = "/root/scratch/seedrepo", "/root/scratch/seedverif"
+patch, props = os.path.abspath(sys.argv[1]), sys.argv[2:]
 def sh(cmd, **kw): return subprocess.run(cmd, capture_output=True, text=True, **kw)
-st = sh(["git", "-C", "/repo", "status", "--porcelain"]).stdout.strip()
-if st:
-    print("refusing: /repo is not clean:\n" + st); sys.exit(2)
-r = sh(["git", "-C", "/repo", "apply", "--3way", patch])
+head = sh(["git", "-C", "/repo", "rev-parse", "HEAD"]).stdout.strip()
+if not os.path.exists(REPO2):
+    sh(["git", "-C", "/repo", "worktree", "add", "-q", "--detach", REPO2, head])
+def clean():
+    sh(["git", "reset", "-q", "--hard"], cwd=REPO2); sh(["git", "clean", "-fdq", "packages/rooc/src", "packages/rooc/tests"], cwd=REPO2)
+clean()
+sh(["git", "checkout", "-q", "--detach", head], cwd=REPO2)
+os.makedirs(VERIF2, exist_ok=True)
+sh(["rsync", "-a", "--delete", "--exclude", ".git", "--exclude", ".work", "--exclude", "replays", "--exclude", "harness/target", "--exclude", "lean/.lake",
+    ROOT + "/", VERIF2 + "/"])
+for d in ("lean/.lake", "harness/target"):
+    if not os.path.exists(os.path.join(VERIF2, d)) and os.path.exists(os.path.join(ROOT, d)):
+        sh(["cp", "-r", os.path.join(ROOT, d), os.path.join(VERIF2, d)])
+ct = os.path.join(VERIF2, "harness", "Cargo.toml")
+txt = open(os.path.join(ROOT, "harness", "Cargo.toml")).read().replace('path = "/repo/packages/rooc"', f'path = "{REPO2}/packages/rooc"')
+open(ct, "w").write(txt)
+r = sh(["git", "apply", "--3way", patch], cwd=REPO2)
 if r.returncode != 0:
-    r = sh(["git", "-C", "/repo", "apply", patch])
+    r = sh(["git", "apply", patch], cwd=REPO2)
     if r.returncode != 0:
-        print("patch does not apply:", r.stderr[-400:]); sh(["git", "-C", "/repo", "checkout", "--", "."]); sys.exit(3)
+        print("patch does not apply:", r.stderr[-400:]); clean(); sys.exit(3)
 res = {}
+env = dict(os.environ, VERIF_REPO=REPO2)
 try:
     for p in props:
-        o = sh([os.path.join(ROOT, "check"), p, "--tier", os.environ.get("SEED_TIER", "quick")], cwd=ROOT)
+        o = sh([os.path.join(VERIF2, "check"), p, "--tier", os.environ.get("SEED_TIER", "quick")], cwd=VERIF2, env=env)
         viol = [l for l in o.stdout.splitlines() if l.startswith("VIOLATION")]
         why = [l for l in o.stdout.splitlines() if l.startswith("# ")]
         res[p] = {"rc": o.returncode, "violations": len(viol), "with_input": len([v for v in viol if "no-failing-input-found" not in v]),
                   "first": (why[0][:220] if why else ""), "tail": o.stdout.splitlines()[-1] if o.stdout else o.stderr[-200:]}
         print(p, json.dumps(res[p]))
 finally:
-    sh(["git", "-C", "/repo", "reset", "-q", "HEAD", "--", "."])
-    sh(["git", "-C", "/repo", "checkout", "--", "."])
-    sh(["git", "-C", "/repo", "clean", "-fdq", "packages/rooc/src", "packages/rooc/tests"])
+    clean()
 print("RESULT", json.dumps(res))
